@@ -86,6 +86,14 @@ impl<'a, T> Parser<'a, T> where T: ParserListener + Send + 'a {
         ensures r == is_special(s@[0]),
     { unimplemented!() }
 
+    /// Parser::set_use_utf8 (`self.parser_state.lock().unwrap().use_utf8 = B`): ASSUMED effect on the shared flag
+    #[verifier::external_body]
+    pub fn set_use_utf8(&mut self, use_utf8: bool)
+        ensures
+            use_utf8_of(*final(self)) == use_utf8,
+            final(self).taking_plain_text == old(self).taking_plain_text,
+    { unimplemented!() }
+
     /// `self.listener.lock().unwrap().draw(&S)`
     #[verifier::external_body]
     pub fn shim_listener_draw(&mut self, s: &String)
@@ -116,16 +124,66 @@ pub fn char_to_string(c: char) -> (r: String)
 }
 
 // ---- ByteParser (C11 / C02 byte half) -------------------------------------------------------------
-/// stand-in for encoding_rs::Decoder (external crate): an opaque streaming decoder
+/// stand-in for encoding_rs (external crate): an opaque streaming decoder with the ASSUMED contracts of the three
+/// methods ByteParser::feed uses
 pub mod encoding_rs {
+    use vstd::prelude::*;
     #[verifier::external_body]
     pub struct Decoder { _p: () }
+    pub enum CoderResult { InputEmpty, OutputFull }
+    /// stand-in for encoding_rs::Encoding / the UTF_8 static
+    pub struct Encoding { pub _p: () }
+}
+pub const UTF_8: encoding_rs::Encoding = encoding_rs::Encoding { _p: () };
+/// the state of a freshly created decoder (no pending bytes)
+pub uninterp spec fn dec_fresh() -> DecState;
+impl encoding_rs::Encoding {
+    #[verifier::external_body]
+    pub fn new_decoder_without_bom_handling(&self) -> (r: encoding_rs::Decoder)
+        ensures dec_of(r) == dec_fresh(),
+    { unimplemented!() }
+}
+/// worst-case number of UTF-8 bytes produced for n input bytes (every ill-formed byte becomes a 3-byte U+FFFD)
+pub uninterp spec fn dec_need(n: int) -> int;
+/// capacity of a String's buffer
+pub uninterp spec fn str_cap(s: String) -> int;
+
+pub assume_specification[String::with_capacity](n: usize) -> (r: String)
+    ensures r@ == Seq::<char>::empty(), str_cap(r) >= n;
+
+impl encoding_rs::Decoder {
+    /// ASSUMED (encoding_rs docs): a buffer of this many bytes always suffices for `byte_length` input bytes
+    #[verifier::external_body]
+    pub fn max_utf8_buffer_length(&self, byte_length: usize) -> (r: Option<usize>)
+        ensures
+            match r { Some(v) => v >= dec_need(byte_length as int), None => byte_length > usize::MAX / 4 },
+    { unimplemented!() }
+
+    /// ASSUMED: sufficient only if no replacement happens -- no guarantee with respect to dec_need
+    #[verifier::external_body]
+    pub fn max_utf8_buffer_length_without_replacement(&self, byte_length: usize) -> (r: Option<usize>)
+    { unimplemented!() }
+
+    /// ASSUMED (encoding_rs docs): with last == false and enough free capacity the whole input is consumed; the appended text and the
+    /// new decoder state are functions of (decoder state, input).  With too little capacity nothing is promised.
+    #[verifier::external_body]
+    pub fn decode_to_string(&mut self, src: &[u8], dst: &mut String, last: bool) -> (r: (encoding_rs::CoderResult, usize, bool))
+        ensures
+            !last && str_cap(*old(dst)) - old(dst)@.len() >= dec_need(src@.len() as int) ==>
+                final(dst)@ == old(dst)@ + dec_out(dec_of(*old(self)), src@) && dec_of(*final(self)) == dec_next(dec_of(*old(self)), src@),
+    { unimplemented!() }
 }
 #[verifier::external_type_specification] #[verifier::reject_recursive_types(T)] pub struct ExByteParser<'a, T: ParserListener + Send + 'a>(ByteParser<'a, T>);
 
 /// abstract state of the streaming decoder (pending incomplete sequence, BOM state)
 pub struct DecState { pub id: int }
 pub uninterp spec fn dec_of(d: encoding_rs::Decoder) -> DecState;
+/// ASSUMED: 3 bytes per input byte plus slack always suffice (U+FFFD is 3 bytes)
+#[verifier::external_body]
+pub proof fn axiom_dec_need(n: int)
+    ensures dec_need(n) <= 3 * n + 16,
+{
+}
 /// ASSUMED contract of encoding_rs: decode_to_string(src, dst, last=false) with a large enough buffer is a
 /// deterministic streaming step: it appends to dst a string that depends only on (decoder state, src) and
 /// leaves a state that depends only on (decoder state, src); and it is a *streaming* decoder:
@@ -153,14 +211,6 @@ impl<'a, T> ByteParser<'a, T> where T: ParserListener + Send + 'a {
         ensures r == use_utf8_of(self.parser),
     { unimplemented!() }
 
-    /// the decode block:  String::with_capacity(max_utf8_buffer_length(..)) + decode_to_string(data, &mut s, false)
-    #[verifier::external_body]
-    pub fn shim_decode_chunk(&mut self, data: &[u8]) -> (r: String)
-        ensures
-            r@ == dec_out(dec_of(old(self).utf8_decoder), data@),
-            dec_of(final(self).utf8_decoder) == dec_next(dec_of(old(self).utf8_decoder), data@),
-            final(self).parser == old(self).parser,
-    { unimplemented!() }
 }
 /// `data.iter().map(|&b| b as char).collect::<String>()`
 #[verifier::external_body]
